@@ -178,10 +178,18 @@ Proof.
   destruct o; simpl; try discriminate; intros _; try reflexivity.
   - destruct (opt_eqb (prev s p) (Some s0)); reflexivity.
   - destruct (blocked s); reflexivity.
-  - destruct (blocked s); reflexivity.
-  - destruct (blocked s); reflexivity.
+  - destruct (blocked s); [reflexivity|]. destruct (stop_all (sraise c) (regs c) (lis s)); reflexivity.
+  - destruct (blocked s); [reflexivity|]. destruct (stop_all (sraise c) (regs c) (lis s)) as [l []]; reflexivity.
   - destruct (takeover s p l []); reflexivity.
   - destruct (opt_eqb (main_of (kregs c) (ktake s)) (Some p)); reflexivity.
+Qed.
+
+Lemma outs_norun c : forall ops s,
+  forallb (fun o => negb (is_run o)) ops = true -> outs c s ops = [].
+Proof.
+  induction ops as [|o t IH]; intros s H; [reflexivity|].
+  simpl in H. apply andb_true_iff in H as [H1 H2].
+  rewrite outs_cons, step_norun; [now apply IH|]. now destruct (is_run o).
 Qed.
 
 (* ---- 1. only on change, in order ------------------------------------------------------------ *)
@@ -233,8 +241,10 @@ Proof.
       rewrite (step_norun c s (Err p) eq_refl). simpl in IH |- *.
       rewrite qplays_app in IH. destruct (lis s p); simpl in IH; now rewrite app_nil_r in IH.
     + rewrite (step_norun c s Start eq_refl). simpl in IH |- *. destruct (blocked s); exact IH.
-    + rewrite (step_norun c s Stop eq_refl). simpl in IH |- *. destruct (blocked s); exact IH.
-    + rewrite (step_norun c s Close eq_refl). simpl in IH |- *. destruct (blocked s); exact IH.
+    + rewrite (step_norun c s Stop eq_refl). simpl in IH |- *. destruct (blocked s); [exact IH|].
+      destruct (stop_all (sraise c) (regs c) (lis s)); exact IH.
+    + rewrite (step_norun c s Close eq_refl). simpl in IH |- *. destruct (blocked s); [exact IH|].
+      destruct (stop_all (sraise c) (regs c) (lis s)) as [l []]; exact IH.
     + (* Take *)
       rewrite (step_norun c s (Take p l) eq_refl). simpl in IH |- *.
       pose proof (takeover_data p l s []) as D.
@@ -408,15 +418,17 @@ Lemma step_ctl c s o :
   match o with
   | Start => if blocked s then s' = s else (fwd s' = true /\ blocked s' = false)
   | Stop => if blocked s then s' = s else (fwd s' = false /\ blocked s' = false)
-  | Close => if blocked s then s' = s else (fwd s' = false /\ blocked s' = true)
+  | Close => if blocked s then s' = s else fwd s' = false
   | _ => fwd s' = fwd s /\ blocked s' = blocked s
   end.
 Proof.
   destruct o; simpl; try (split; reflexivity).
   - destruct (opt_eqb (prev s p) (Some s0)); split; reflexivity.
   - destruct (blocked s); [reflexivity | split; reflexivity].
-  - destruct (blocked s); [reflexivity | split; reflexivity].
-  - destruct (blocked s); [reflexivity | split; reflexivity].
+  - destruct (blocked s); [reflexivity|].
+    destruct (stop_all (sraise c) (regs c) (lis s)); split; reflexivity.
+  - destruct (blocked s); [reflexivity|].
+    destruct (stop_all (sraise c) (regs c) (lis s)) as [l []]; reflexivity.
   - pose proof (takeover_data p l s []) as D. destruct (takeover s p l []) as [s' r]. simpl in *.
     destruct D as (_ & _ & D3 & D4 & _). split; assumption.
   - destruct (release_data l s) as (_ & _ & D3 & D4 & _). split; assumption.
@@ -439,7 +451,7 @@ Proof.
   destruct o; try (destruct H as [H1 H2]; rewrite H1, H2; exact I).
   - destruct (blocked s) eqn:B; [rewrite H; intros _; now apply I | destruct H as [H1 H2]; rewrite H2; discriminate].
   - destruct (blocked s) eqn:B; [rewrite H; intros _; now apply I | destruct H as [H1 H2]; rewrite H2; discriminate].
-  - destruct (blocked s) eqn:B; [rewrite H; intros _; now apply I | destruct H as [H1 H2]; now rewrite H1].
+  - destruct (blocked s) eqn:B; [rewrite H; intros _; now apply I | intros _; exact H].
 Qed.
 
 Lemma inv_final c : forall ops s, inv s -> inv (final c s ops).
@@ -458,7 +470,27 @@ Proof.
   pose proof (step_ctl c s o) as H. cbv zeta in H.
   destruct o; try discriminate; try (destruct H as [H1 _]; congruence).
   - destruct (blocked s); [now rewrite H | now destruct H].
-  - destruct (blocked s); [now rewrite H | now destruct H].
+  - destruct (blocked s); [now rewrite H | exact H].
+Qed.
+
+Lemma stop_all_ok bad : forall r f,
+  forallb (fun p => negb (memb p bad)) r = true -> snd (stop_all bad r f) = true.
+Proof.
+  induction r as [|p r IH]; intros f H; [reflexivity|].
+  simpl in H. apply andb_true_iff in H as [H1 H2]. simpl.
+  destruct (memb p bad); [discriminate|]. now apply IH.
+Qed.
+
+(* stop() and close() switch forwarding off whether or not they run to the end *)
+Lemma fwd_after_stop_or_close c s o :
+  inv s -> (o = Stop \/ o = Close) -> fwd (fst (fst (step c s o))) = false.
+Proof.
+  intros I O. pose proof (step_ctl c s o) as H. cbv zeta in H. unfold inv in I.
+  destruct O as [-> | ->]; destruct (blocked s) eqn:B.
+  - rewrite H. now apply I.
+  - now destruct H.
+  - rewrite H. now apply I.
+  - exact H.
 Qed.
 
 Lemma silent_blocked c : forall ops s,
@@ -545,8 +577,8 @@ Proof.
   - destruct (opt_eqb (prev s p) (Some s0)); [|destruct (lis s p)]; fin_q.
   - destruct (lis s p); fin_q.
   - destruct (blocked s); fin_q.
-  - destruct (blocked s); fin_q.
-  - destruct (blocked s); fin_q.
+  - destruct (blocked s); [fin_q|]. destruct (stop_all (sraise c) (regs c) (lis s)); fin_q.
+  - destruct (blocked s); [fin_q|]. destruct (stop_all (sraise c) (regs c) (lis s)) as [l []]; fin_q.
   - pose proof (takeover_data p l s []) as D. destruct (takeover s p l []) as [s' r]. simpl in *.
     destruct D as (_ & _ & _ & _ & D5 & D6 & D7 & D8). rewrite ?D5, ?D6, ?D7, D8. fin_q.
   - destruct (release_data l s) as (_ & _ & _ & _ & D5 & D6 & D7 & D8). rewrite ?D5, ?D6, ?D7, D8. fin_q.
@@ -617,8 +649,8 @@ Proof.
   - destruct (opt_eqb (prev s p) (Some s0)); [|destruct (lis s p)]; fin_q.
   - destruct (lis s p); fin_q.
   - destruct (blocked s); fin_q.
-  - destruct (blocked s); fin_q.
-  - destruct (blocked s); fin_q.
+  - destruct (blocked s); [fin_q|]. destruct (stop_all (sraise c) (regs c) (lis s)); fin_q.
+  - destruct (blocked s); [fin_q|]. destruct (stop_all (sraise c) (regs c) (lis s)) as [l []]; fin_q.
   - pose proof (takeover_data p l s []) as D. destruct (takeover s p l []) as [s' r]. simpl in *.
     destruct D as (_ & _ & _ & _ & D5 & D6 & D7 & D8). rewrite ?D5, ?D6, ?D7, D8. fin_q.
   - destruct (release_data l s) as (_ & _ & _ & _ & D5 & D6 & D7 & D8). rewrite ?D5, ?D6, ?D7, D8. fin_q.
@@ -696,8 +728,8 @@ Proof.
   - destruct (opt_eqb (prev s p) (Some s0)); [|destruct (lis s p)]; fin_q.
   - destruct (lis s p); fin_q.
   - destruct (blocked s); fin_q.
-  - destruct (blocked s); fin_q.
-  - destruct (blocked s); fin_q.
+  - destruct (blocked s); [fin_q|]. destruct (stop_all (sraise c) (regs c) (lis s)); fin_q.
+  - destruct (blocked s); [fin_q|]. destruct (stop_all (sraise c) (regs c) (lis s)) as [l []]; fin_q.
   - pose proof (takeover_data p l s []) as D. destruct (takeover s p l []) as [s' r]. simpl in *.
     destruct D as (_ & _ & _ & _ & D5 & D6 & D7 & D8). rewrite ?D5, ?D6, ?D7, D8. fin_q.
   - destruct (release_data l s) as (_ & _ & _ & _ & D5 & D6 & D7 & D8). rewrite ?D5, ?D6, ?D7, D8. fin_q.
